@@ -368,6 +368,59 @@ def compositions(inp, out, groups):
     return issues
 
 
+def shapes(inp, out):
+    """Every small rank / extent combination: all (a, b) with a, b in 0..5, (k, N) and (N, k) for k = 1..4 and several N,
+    3-D and 4-D blocks, zero-length axes; C order, Fortran order and transposed views.  The result must have the shape of
+    the input and equal the scalar results element by element (bit-for-bit)."""
+    issues = []
+    shp = [(a, b) for a in range(6) for b in range(6)]
+    for k in (1, 2, 3, 4):
+        for n in (7, 64, 1000):
+            shp += [(k, n), (n, k)]
+    shp += [(2, 3, 4), (3, 2, 2), (3, 1, 1), (1, 3, 1), (1, 1, 3), (3, 3, 3), (4, 3, 2), (3, 4, 5), (2, 1, 3, 2), (3, 3, 3, 3), (1, 1, 1), (1, 1, 1, 1),
+            (0, 3, 2), (3, 0, 2), (3, 2, 0), (0,), (3,), (1,)]
+    for unit, deg in (('deg', True), ('rad', False)):
+        xs = np.array([float.fromhex(h) for h in inp[unit]], dtype=np.float64)
+        if xs.size == 0:
+            continue
+        for key, name, f in (('y2h', 'yaw_to_heading', yaw_to_heading), ('h2y', 'heading_to_yaw', heading_to_yaw)):
+            sc = out['%s_%s' % (key, unit)]['scalar']
+            if any(v.startswith(('EXC', 'TYPE')) for v in sc):
+                continue
+            ref = np.array([float.fromhex(v) for v in sc], dtype=np.float64)
+            found = {}
+            for si, sh in enumerate(shp):
+                n = int(np.prod(sh))
+                idx = (np.arange(n) * 37 + si * 101) % xs.size
+                variants = [('C order', xs[idx].reshape(sh))]
+                if len(sh) >= 2:
+                    variants.append(('Fortran order', np.asfortranarray(xs[idx].reshape(sh))))
+                    variants.append(('transposed view', xs[idx].reshape(sh[::-1]).T))
+                for label, a in variants:
+                    want = ref[idx].reshape(a.shape) if label != 'transposed view' else ref[idx].reshape(sh[::-1]).T
+                    keep = a.copy()
+                    what = None
+                    try:
+                        r = f(a, deg=deg)
+                    except Exception as e:  # noqa
+                        what = ('exception', 'raises %s' % type(e).__name__)
+                    else:
+                        if not isinstance(r, np.ndarray) or r.shape != a.shape:
+                            what = ('bad-result-shape', 'gives %s of shape %r' % (type(r).__name__, np.shape(r)))
+                        elif n and (_u64(r) != _u64(want)).any():
+                            j = int(np.nonzero(_u64(r) != _u64(want))[0][0])
+                            what = ('array-differs-from-scalars', 'element %d (input %r) gives %s, the scalar call gives %s'
+                                    % (j, float(np.ascontiguousarray(a).reshape(-1)[j]), float(np.ascontiguousarray(r).reshape(-1)[j]).hex(),
+                                       float(np.ascontiguousarray(want).reshape(-1)[j]).hex()))
+                        elif n and (_u64(a) != _u64(keep)).any():
+                            what = ('input-modified', 'the input was changed')
+                    if what and (what[0] not in found or (found[what[0]]['length'] == 0 and n > 0)):
+                        found[what[0]] = {'length': n, 'fn': name, 'unit': unit, 'input_kind': 'array-shape', 'issue': what[0],
+                                          'detail': 'float64 array of shape %r (%s) %s' % (a.shape, label, what[1])}
+            issues += list(found.values())
+    return issues
+
+
 def forms_and_environment(inp, out, sem):
     """Argument forms (Python int / bool, numpy scalars of other types, 0-d arrays, lists / tuples, masked arrays,
     low-precision arrays), forms of the `deg` flag and its default, numpy's floating-point error state, non-finite
@@ -581,6 +634,7 @@ def main():
     out['array_semantics'] = (array_semantics(inp.get('sem', {})) + history_semantics(inp.get('sem', {}))
                               + large_arrays(inp, out, inp.get('lengths', []))
                               + compositions(inp, out, inp.get('groups', {}))
+                              + shapes(inp, out)
                               + forms_and_environment(inp, out, inp.get('sem', {})))
     json.dump(out, open(sys.argv[2], 'w'))
 
